@@ -60,12 +60,38 @@ def rule_alpha(E, R):
     # the arm that pushes the char
     got = None
     for m in find_matches(body, r"^char$"):
+        acc = set()
+        any_push = False
         for a in m["arms"]:
             pushes = [c for c in exprs(a["body"], "MethodCall") if c["m"] == "push" and local_name(c["recv"]) == "res"]
-            if pushes:
-                got = chars_of_pat(a["pat"])
+            if not pushes:
+                continue
+            any_push = True
+            if "guard" in a:
+                # an arm admitted by a predicate: map known ASCII predicates to their sets, anything else is too wide
+                preds = [last_seg(norm(c.get("callee", ""))) for c in exprs(a["guard"], ("Call", "MethodCall"))]
+                known = {"is_ascii_lowercase": set("abcdefghijklmnopqrstuvwxyz"), "is_ascii_digit": set("0123456789")}
+                unknown = [p for p in preds if p not in known]
+                base = chars_of_pat(a["pat"]) if a["pat"].get("k") not in ("PBinding", "PWild") else None
+                if unknown or not preds or any(b != "Or" for b in binops(a["guard"]) if b in ("And", "Or")) and False:
+                    R.violation(rule, fn, "list-name characters admitted by predicate %s" % (unknown or preds),
+                                "the documented alphabet is a-z 0-9 _ . ; a predicate such as char::is_lowercase / is_alphanumeric also "
+                                "admits non-ASCII letters", a["sp"])
+                    acc = None
+                    break
+                for p_ in preds:
+                    acc |= known[p_]
+            else:
+                cs = chars_of_pat(a["pat"])
+                if cs is None:
+                    acc = None
+                    break
+                acc |= cs
+        if any_push:
+            got = acc
     if got is None:
-        R.cannot(rule, fn, "could not extract the accepted character set")
+        if not any(r.status == "violation" and r.rule == rule for r in R.results):
+            R.cannot(rule, fn, "could not extract the accepted character set")
     else:
         extra, missing = sorted(got - want), sorted(want - got)
         R.check(got == want, rule, fn, "accepted characters are exactly a-z 0-9 _ .",
